@@ -89,6 +89,8 @@ struct Runner
         auto keys = [&](int maxn) {
             std::vector<int> ks;
             int              n = r.in(maxn + 1);
+            if (cfg.cap >= 64 && r.in(3) == 0)
+                n = 130 + r.in(100); // long ranges (chunked / size-dependent code paths)
             for (int i = 0; i < n; ++i)
                 ks.push_back(r.in(uni));
             return ks;
@@ -96,6 +98,8 @@ struct Runner
         auto kvs = [&](int maxn) {
             std::vector<bx::KV> e;
             int                 n = r.in(maxn + 1);
+            if (cfg.cap >= 64 && r.in(3) == 0)
+                n = 130 + r.in(100);
             for (int i = 0; i < n; ++i)
             {
                 int kk = r.in(uni);
